@@ -156,13 +156,34 @@ def proof_stage(pid, targets, allow_axioms=()):
 
 # ------------------------------------------------------------------ tie stage
 
+REPO = os.environ.get("VERIF_REPO", "/repo")
+
+
+def harness_dir():
+    """/verif/harness builds against /repo.  For the integrator's mutation experiments
+    VERIF_REPO=<worktree> builds a copy of the harness whose path dependencies point at that
+    worktree (own target dir), so /repo itself stays untouched.  Registered checks never set it."""
+    if REPO == "/repo":
+        return os.path.join(ROOT, "harness"), CARGO_TARGET
+    tag = hashlib.sha1(REPO.encode()).hexdigest()[:8]
+    hdir = os.path.join(ROOT, "build", f"harness-{tag}")
+    sh(f"mkdir -p {hdir} && rsync -a --delete --exclude target {ROOT}/harness/ {hdir}/")
+    for fn in ("Cargo.toml", ".cargo/config.toml"):
+        p = os.path.join(hdir, fn)
+        t = open(p).read().replace('"/repo/', f'"{REPO}/').replace("/verif/build/cargo", f"{ROOT}/build/cargo-{tag}")
+        open(p, "w").write(t)
+    return hdir, os.path.join(ROOT, "build", f"cargo-{tag}")
+
+
 def build_harness(bin_name):
-    hdir = os.path.join(ROOT, "harness")
+    hdir, target = harness_dir()
+    global CARGO_TARGET
+    CARGO_TARGET = target
     env = {"CARGO_TARGET_DIR": CARGO_TARGET}
     t0 = time.time()
     rc, out = sh(f"cargo build --offline --bin {bin_name}", cwd=hdir, env=env, timeout=2400)
     if rc != 0 and "Cargo.lock" in out:
-        sh("cp /repo/Cargo.lock Cargo.lock", cwd=hdir)
+        sh(f"cp {REPO}/Cargo.lock Cargo.lock", cwd=hdir)
         rc, out = sh(f"cargo build --offline --bin {bin_name}", cwd=hdir, env=env, timeout=2400)
     return rc == 0, out[-3000:], round(time.time() - t0, 1), os.path.join(CARGO_TARGET, "debug", bin_name)
 
